@@ -51,6 +51,7 @@ func checkC17(c *Ctx, r *Report) {
 	foldRule(c, r, "C17.R1.name-eq")
 	borrow(c, r, c10R2, "C10.R2.sigwire-fill", "C17.R4.signer-canonical", 2, "Sign and Verify both put the canonical (lower-cased) signer name into the signed data", nil, "a key whose signer name has a capital letter signs data that Verify, which lower-cases, does not reproduce: generated and re-read keys do not verify their own signatures")
 	dsForEveryKey(c, r, "C17.R3.ds-for-every-key")
+	dsNoValueRefusal(c, r, "C17.R3.ds-no-value-refusal")
 	keyScratchSize(c, r, "C17.R8.key-scratch")
 	wildcardBelowRoot(c, r, "C17.R4.wildcard-below-root")
 }
